@@ -131,6 +131,13 @@ theorem judgeFile_new_indep (env : Env) (t : Node) (rootHist : Hist) (p : RelPat
 
 /-! ### 4. `verifyOrDiff` on a loaded, non-empty history -/
 
+/-- an entry the traversal visits is not excluded: neither it nor a folder above it is matched -/
+theorem hitAbove_false_of_visible (hit : RelPath → Bool) (t : Node) (p : RelPath) (d : Bool)
+    (hv : (p, d) ∈ visiblePaths hit t) : hitAbove hit p = false := by
+  rw [hitAbove_false_iff]
+  intro i hi
+  exact ((MhlProps.C02.visible_iff hit t p d).1 hv).2 (i + 1) (by omega) (by omega)
+
 section run
 variable (env : Env) (t : Node) (o : VerifyOpts) (hashing : Bool) (rootHist : Hist)
 
@@ -172,9 +179,24 @@ theorem news_iff (p : RelPath) :
 theorem missing_iff (p : RelPath) :
     p ∈ vMissing env t rootHist o ↔
       p ∈ expectedPaths rootHist ∧ (∀ d, (p, d) ∉ visiblePaths (vHit env rootHist o) t) ∧
-        vHit env rootHist o p = false := by
+        hitAbove (vHit env rootHist o) p = false := by
   rw [mem_vMissing, mem_vFound]
   simp
+
+/-- **whatever the patterns (negations included), nothing that is on disk is ever reported missing**: a missing path
+is not an entry of the tree.  (Before the repair of D16 the completeness check matched whole paths only, and a file
+below an ignored folder that a negated pattern re-included was reported missing although it was there.) -/
+theorem missing_not_on_disk (p : RelPath) (hp : p ∈ vMissing env t rootHist o) (d : Bool) :
+    (p, d) ∉ Node.paths [] t := by
+  obtain ⟨-, hnv, hh⟩ := (missing_iff env t o rootHist p).1 hp
+  intro hin
+  apply hnv d
+  rw [MhlProps.C02.visible_iff]
+  refine ⟨hin, ?_⟩
+  intro k hk hkl
+  have := (hitAbove_false_iff _ p).1 hh (k - 1) (by omega)
+  have h1 : k - 1 + 1 = k := by omega
+  rwa [h1] at this
 
 /-! #### no false report -/
 
@@ -200,7 +222,7 @@ theorem reported_new_genuine (hl : loadHistory t = .ok rootHist) (hg : rootHist.
 theorem reported_missing_genuine (hl : loadHistory t = .ok rootHist) (hg : rootHist.gens ≠ [])
     (s : String) (hs : s ∈ (verifyOrDiff env t o hashing none).report.missing) :
     ∃ p, s = posix p ∧ p ∈ expectedPaths rootHist ∧ (∀ d, (p, d) ∉ visiblePaths (vHit env rootHist o) t) ∧
-      vHit env rootHist o p = false := by
+      hitAbove (vHit env rootHist o) p = false := by
   rw [(report_shape env t o hashing rootHist hl hg).2.2.1] at hs
   obtain ⟨p, hp, rfl⟩ := List.mem_map.1 hs
   exact ⟨p, rfl, (missing_iff env t o rootHist p).1 hp⟩
@@ -310,7 +332,7 @@ theorem new_complete (hl : loadHistory t = .ok rootHist) (hg : rootHist.gens ≠
 for diff, and for verify unless a mismatch / a new file / a single file not found takes precedence -/
 theorem missing_complete (hl : loadHistory t = .ok rootHist) (hg : rootHist.gens ≠ []) (p : RelPath)
     (he : p ∈ expectedPaths rootHist) (hnv : ∀ d, (p, d) ∉ visiblePaths (vHit env rootHist o) t)
-    (hh : vHit env rootHist o p = false) :
+    (hh : hitAbove (vHit env rootHist o) p = false) :
     p ∈ vMissing env t rootHist o ∧
     posix p ∈ (verifyOrDiff env t o hashing none).report.missing ∧
     (verifyOrDiff env t o hashing none).exitCode ≠ 0 ∧
@@ -364,7 +386,7 @@ theorem clean_exit_zero (hl : loadHistory t = .ok rootHist) (hg : rootHist.gens 
     (hok : ∀ p, (p, false) ∈ visiblePaths (vHit env rootHist o) t →
       judgeFile env t rootHist hashing p ≠ .mismatch ∧ judgeFile env t rootHist hashing p ≠ .new)
     (hexp : ∀ p ∈ expectedPaths rootHist,
-      (∃ d, (p, d) ∈ visiblePaths (vHit env rootHist o) t) ∨ vHit env rootHist o p = true) :
+      (∃ d, (p, d) ∈ visiblePaths (vHit env rootHist o) t) ∨ hitAbove (vHit env rootHist o) p = true) :
     (verifyOrDiff env t o hashing none).err = none ∧
     (verifyOrDiff env t o hashing none).exitCode = 0 ∧
     (verifyOrDiff env t o hashing none).report.mismatch = [] ∧
@@ -407,7 +429,7 @@ theorem clean_exit_zero (hl : loadHistory t = .ok rootHist) (hg : rootHist.gens 
 the new nor among the mismatching ones.  Since the report is the `posix` image of these lists (`report_shape`), no
 reported text stems from an ignored path. -/
 theorem ignored_irrelevant (p : RelPath) :
-    (vHit env rootHist o p = true → p ∉ vMissing env t rootHist o) ∧
+    (hitAbove (vHit env rootHist o) p = true → p ∉ vMissing env t rootHist o) ∧
     (∀ k, 0 < k → k ≤ p.length → vHit env rootHist o (p.take k) = true →
       p ∉ vNews env t rootHist o hashing ∧ p ∉ vMism env t rootHist o hashing) := by
   constructor
@@ -422,7 +444,7 @@ theorem ignored_irrelevant (p : RelPath) :
 /-- in terms of the report: every reported text has a pre-image no part of which is ignored -/
 theorem ignored_irrelevant_report (hl : loadHistory t = .ok rootHist) (hg : rootHist.gens ≠ []) (s : String) :
     (s ∈ (verifyOrDiff env t o hashing none).report.missing →
-      ∃ p, s = posix p ∧ vHit env rootHist o p = false) ∧
+      ∃ p, s = posix p ∧ hitAbove (vHit env rootHist o) p = false) ∧
     (s ∈ (verifyOrDiff env t o hashing none).report.new ∨ s ∈ (verifyOrDiff env t o hashing none).report.mismatch →
       ∃ p, s = posix p ∧ ∀ k, 0 < k → k ≤ p.length → vHit env rootHist o (p.take k) = false) := by
   constructor
@@ -438,7 +460,7 @@ theorem ignored_irrelevant_report (hl : loadHistory t = .ok rootHist) (hg : root
 /-- making an ignored path vanish or appear changes nothing in what is missing: `missingAfter` only keeps paths the
 matcher does not hit -/
 theorem missingAfter_spec (hit : RelPath → Bool) (l : List RelPath) (p : RelPath) :
-    p ∈ missingAfter hit l ↔ p ∈ l ∧ hit p = false := mem_missingAfter hit l p
+    p ∈ missingAfter hit l ↔ p ∈ l ∧ hitAbove hit p = false := mem_missingAfter hit l p
 
 end run
 
@@ -480,7 +502,7 @@ theorem diff_unrecorded (env : Env) (t : Node) (o : VerifyOpts) (rootHist : Hist
 theorem diff_removed (env : Env) (t : Node) (o : VerifyOpts) (rootHist : Hist)
     (hl : loadHistory t = .ok rootHist) (hg : rootHist.gens ≠ []) (p : RelPath)
     (he : p ∈ expectedPaths rootHist) (hnv : ∀ d, (p, d) ∉ visiblePaths (vHit env rootHist o) t)
-    (hh : vHit env rootHist o p = false) :
+    (hh : hitAbove (vHit env rootHist o) p = false) :
     posix p ∈ (diff env t o).report.missing ∧ (diff env t o).exitCode = 10 := by
   have := missing_complete env t { o with singleFile := none } false rootHist hl hg p he hnv hh
   exact ⟨this.2.1, this.2.2.2.1 rfl⟩
